@@ -47,6 +47,18 @@ def gen(rng, tier):
         else:
             v = [rng.randrange(256) for _ in range(n)]
         cs.append(Case("decttl " + hexs(v), kind="decttl", len=n))
+    # LoopPrevention "for the server" when the server is DISCOVERED by a lookup command: what its printed block says, else what the
+    # template block says (the real adddynamicrealmserver .. confserver_cb .. mergesrvconf path, op dynconf)
+    for _ in range(80 if tier == "quick" else 2000):
+        tlp = rng.choice([255, 0, 1, 1])
+        blp = rng.choice([None, None, 0, 1])
+        lines = [b"  type tcp\n"] if rng.random() < 0.5 else []
+        if blp is not None:
+            lines.append(b"  LoopPrevention %s\n" % (b"on" if blp else b"off"))
+        rng.shuffle(lines)
+        block = b"server dynamic {\n  host 127.0.0.1:1\n" + b"".join(lines) + b"}\n"
+        cs.append(Case("dynconf %s %s %s . T2,255,255,0,1,%d B%s,-,-,-,-,%s" % (b"tmplsecret".hex(), rng.choice([b"bob@example.org", b"a@b.c"]).hex(), block.hex(), tlp,
+                                                                       "2" if b"type" in block else "-", "-" if blp is None else str(blp)), kind="dynconf-loopprev", len=4))
     return cs
 
 
